@@ -2,7 +2,9 @@ package props
 
 import (
 	"fmt"
+	"math"
 	"runtime"
+	"sort"
 	"sync"
 	"sync/atomic"
 	"time"
@@ -195,3 +197,341 @@ func checkPoison(c PoisonCase) error {
 }
 
 var _ = spec.V2
+
+// ---- (n) score streams --------------------------------------------------------------------------
+
+// StreamCase14: G goroutines each walk, in their own order and several times, over a pool of N different objects
+// of one version and call the scoring methods; every result is compared with the one computed sequentially
+// beforehand. A result cache with more than one word per line that is updated without excluding readers is
+// exact sequentially and race-detector-clean (all accesses atomic), and wrong only when one goroutine reads a
+// line while two others replace it - which needs many different vectors in flight, not a few hot ones.
+type ScoreStream struct {
+	Ver    int `json:"ver"`
+	N      int `json:"pool"`
+	From   int `json:"from"` // first index into the version's prefix space (spread by a stride)
+	G      int `json:"goroutines"`
+	Rounds int `json:"rounds"`
+}
+
+func runScoreStream(c ScoreStream) error {
+	if c.Ver < 0 || c.Ver > 3 || c.N < 1 || c.G < 1 {
+		return nil
+	}
+	p := adapt.Pkgs[c.Ver]
+	vecs := distinctVectors(c.Ver, c.From, c.N)
+	objs := make([]adapt.Obj, 0, len(vecs))
+	for _, s := range vecs {
+		if o, err := p.Parse(s); err == nil && o != nil {
+			objs = append(objs, o)
+		}
+	}
+	if len(objs) == 0 {
+		return nil
+	}
+	want := make([]string, len(objs))
+	for i, o := range objs {
+		want[i] = fbits(o.Scores()) + fbits(o.SubScores())
+	}
+	// a second sequential pass: the answers must already be stable
+	for i, o := range objs {
+		if got := fbits(o.Scores()) + fbits(o.SubScores()); got != want[i] {
+			return fmt.Errorf("v%s scores of %s differ between two sequential passes over %d objects: %s then %s", p.V.Name, o.Vector(), len(objs), want[i], got)
+		}
+	}
+	var wg sync.WaitGroup
+	errs := make([]error, c.G)
+	var stop int32
+	for g := 0; g < c.G; g++ {
+		wg.Add(1)
+		go func(g int) {
+			defer wg.Done()
+			defer func() {
+				if r := recover(); r != nil {
+					errs[g] = fmt.Errorf("goroutine %d panicked: %v", g, r)
+				}
+			}()
+			step := nextPrime(7 + 2*g)
+			for r := 0; r < c.Rounds; r++ {
+				for k := 0; k < len(objs) && atomic.LoadInt32(&stop) == 0; k++ {
+					i := (k*step + g*131) % len(objs)
+					o := objs[i]
+					if got := fbits(o.Scores()) + fbits(o.SubScores()); got != want[i] {
+						errs[g] = fmt.Errorf("v%s scores of %s = %s while %d goroutines score a pool of %d different objects; sequentially %s", p.V.Name, o.Vector(), got, c.G, len(objs), want[i])
+						atomic.StoreInt32(&stop, 1)
+						return
+					}
+				}
+			}
+		}(g)
+	}
+	wg.Wait()
+	for _, e := range errs {
+		if e != nil {
+			return e
+		}
+	}
+	return nil
+}
+
+// ---- (o) one call repeated 2^24 times ------------------------------------------------------------
+
+// RepeatCase: the same call on the same object, 2^24 + 16 times in all (8 goroutines), every result compared.
+// A hit counter packed next to a cached result carries into the result when it overflows.
+type RepeatCase struct {
+	Ver   int      `json:"ver"`
+	Kind  string   `json:"kind"` // scores | vector | get | rating
+	Vec   gen.BStr `json:"vector"`
+	Total int64    `json:"calls"`
+}
+
+func runRepeat(c RepeatCase) error {
+	if c.Ver < 0 || c.Ver > 3 || c.Total < 1 || c.Total > 1<<33 {
+		return nil
+	}
+	p := adapt.Pkgs[c.Ver]
+	if c.Kind == "parse-empty" {
+		return runRepeatParse(c)
+	}
+	o, err := p.Parse(string(c.Vec))
+	if err != nil || o == nil {
+		return nil
+	}
+	abv := p.V.Metrics[len(p.V.Metrics)-1].Abv
+	var call func() string
+	switch c.Kind {
+	case "scores":
+		// compared as bits: formatting 2^24 results would dominate
+		ref := o.Scores()
+		call = func() string {
+			for i, x := range o.Scores() {
+				if math.Float64bits(x) != math.Float64bits(ref[i]) {
+					return fbits(o.Scores())
+				}
+			}
+			return ""
+		}
+	case "vector":
+		call = func() string { return o.Vector() }
+	case "get":
+		call = func() string { g, _ := o.Get(abv); return g }
+	case "rating":
+		if p.Rating == nil {
+			return nil
+		}
+		call = func() string { r, _ := p.Rating(5.5); return r }
+	default:
+		return nil
+	}
+	want := call()
+	const G = 8
+	var wg sync.WaitGroup
+	errs := make([]error, G)
+	var stop int32
+	for g := 0; g < G; g++ {
+		wg.Add(1)
+		go func(g int) {
+			defer wg.Done()
+			for k := int64(0); k < c.Total/G+2 && atomic.LoadInt32(&stop) == 0; k++ {
+				if got := call(); got != want {
+					errs[g] = fmt.Errorf("v%s %s on %s returns %q at about call %d of the same call on the same object; the first call returned %q", p.V.Name, c.Kind, string(c.Vec), got, k*G, want)
+					atomic.StoreInt32(&stop, 1)
+					return
+				}
+			}
+		}(g)
+	}
+	wg.Wait()
+	for _, e := range errs {
+		if e != nil {
+			return e
+		}
+	}
+	return nil
+}
+
+// runRepeatParse: ParseVector("") - the cheapest call that goes through the parser's entry - Total times on 8
+// goroutines, then the vector is round-tripped: a turn counter kept in 31 or 32 bits (a ring of buffers handed out in
+// turn) wraps after 2^31 / 2^32 calls.
+func runRepeatParse(c RepeatCase) error {
+	p := adapt.Pkgs[c.Ver]
+	const G = 8
+	var wg sync.WaitGroup
+	var bad atomic.Int64
+	for g := 0; g < G; g++ {
+		wg.Add(1)
+		go func() {
+			defer wg.Done()
+			defer func() {
+				if r := recover(); r != nil {
+					bad.Add(1)
+				}
+			}()
+			for k := int64(0); k < c.Total/G+2; k++ {
+				if o, err := p.Parse(""); err == nil || o != nil {
+					bad.Add(1)
+					return
+				}
+			}
+		}()
+	}
+	wg.Wait()
+	if bad.Load() > 0 {
+		return fmt.Errorf("v%s ParseVector(\"\") panicked or succeeded during %d repetitions", p.V.Name, c.Total)
+	}
+	for k := 0; k < 200; k++ {
+		o, err, pan := p.SafeParse(string(c.Vec))
+		if pan != nil || err != nil || o == nil {
+			return fmt.Errorf("v%s ParseVector(%q) fails after %d calls of ParseVector(\"\"): err=%v panic=%v", p.V.Name, string(c.Vec), c.Total, err, pan)
+		}
+		if q, err2, pan2 := p.SafeParse(o.Vector()); pan2 != nil || err2 != nil || q == nil || !q.Eq(o) {
+			return fmt.Errorf("v%s: after %d calls of ParseVector(\"\") the round trip of %q fails: err=%v panic=%v", p.V.Name, c.Total, string(c.Vec), err2, pan2)
+		}
+	}
+	return nil
+}
+
+// ---- shared error values ----------------------------------------------------------------------
+
+// sharedErrors: one error value of each typed kind, read by 8 goroutines at the same time (Error(), errors.As):
+// an error value is a shared read-only object like any other.
+func sharedErrors() error {
+	for _, p := range adapt.Pkgs {
+		var errs []error
+		o := p.Zero()
+		_, e1 := o.Get("ZZ")
+		e2 := o.Set("ZZ", "N")
+		_, e3 := p.Parse(p.V.Header + "ZZ:N")
+		_, e4 := p.Parse(p.V.Header)
+		errs = append(errs, e1, e2, e3, e4)
+		for _, e := range errs {
+			if e == nil {
+				continue
+			}
+			e := e
+			want := e.Error()
+			var wg sync.WaitGroup
+			bad := make([]string, 8)
+			for g := 0; g < 8; g++ {
+				wg.Add(1)
+				go func(g int) {
+					defer wg.Done()
+					for k := 0; k < 200; k++ {
+						if got := e.Error(); got != want {
+							bad[g] = got
+							return
+						}
+						p.AsInvalidMetric(e)
+					}
+				}(g)
+			}
+			wg.Wait()
+			for _, b := range bad {
+				if b != "" {
+					return fmt.Errorf("v%s: an error value read by 8 goroutines at the same time says %q to one of them and %q to the others", p.V.Name, b, want)
+				}
+			}
+		}
+	}
+	return nil
+}
+
+// firstScoreVectors: one v4.0 vector per MacroVector (the first effective class of each), for cold starts whose
+// very first Score() is for that MacroVector.
+func firstScoreVectors() []string {
+	seen := map[string]bool{}
+	var out, mvs []string
+	n := spec.V4Classes()
+	for i := 0; i < n && len(out) < 270; i += 7 {
+		e, _ := spec.V4Decode(i)
+		w := spec.ScoreV4(e)
+		if w.Zero || seen[w.MV] {
+			continue
+		}
+		seen[w.MV] = true
+		out = append(out, spec.Canon(spec.V4, spec.AssignmentFromEff4(e)))
+		mvs = append(mvs, w.MV)
+	}
+	// sorted by MacroVector, so that the first is 000000 and the last the highest one found
+	sort.Sort(byMV{out, mvs})
+	return out
+}
+
+var _ = runtime.NumCPU
+var _ = time.Second
+
+type byMV struct{ vecs, mvs []string }
+
+func (b byMV) Len() int           { return len(b.vecs) }
+func (b byMV) Less(i, j int) bool { return b.mvs[i] < b.mvs[j] }
+func (b byMV) Swap(i, j int) {
+	b.vecs[i], b.vecs[j] = b.vecs[j], b.vecs[i]
+	b.mvs[i], b.mvs[j] = b.mvs[j], b.mvs[i]
+}
+
+// ---- (p) hot pairs ---------------------------------------------------------------------------------
+
+// HotPair: twice as many goroutines as Ps, each with its OWN copy of one of two objects, call one scoring method in
+// the tightest possible loop and compare the bits of the result. State that the package keeps for "the last object
+// scored" is then rewritten back and forth between two values at the highest possible rate, while readers of
+// both are in flight: a multi-word entry validated by its key instead of a version number shows within a second.
+type HotPair struct {
+	Ver   int      `json:"ver"`
+	VecA  gen.BStr `json:"a"`
+	VecB  gen.BStr `json:"b"`
+	Iters int      `json:"iterations_per_goroutine"`
+}
+
+func runHotPair(c HotPair) error {
+	if c.Ver < 0 || c.Ver > 3 || c.Iters < 1 || c.Iters > 1<<26 {
+		return nil
+	}
+	p := adapt.Pkgs[c.Ver]
+	oa, err := p.Parse(string(c.VecA))
+	if err != nil || oa == nil {
+		return nil
+	}
+	ob, err := p.Parse(string(c.VecB))
+	if err != nil || ob == nil {
+		return nil
+	}
+	nfn := 3
+	if c.Ver == 3 {
+		nfn = 1
+	}
+	n := 2 * runtime.GOMAXPROCS(0)
+	var wg sync.WaitGroup
+	errs := make([]error, n)
+	var stop int32
+	for g := 0; g < n; g++ {
+		wg.Add(1)
+		go func(g int) {
+			defer wg.Done()
+			defer func() {
+				if r := recover(); r != nil {
+					errs[g] = fmt.Errorf("goroutine %d panicked: %v", g, r)
+				}
+			}()
+			src := oa
+			if g%2 == 1 {
+				src = ob
+			}
+			o := src.Clone()
+			fn := (g / 2) % nfn
+			want := math.Float64bits(o.Fn(fn))
+			for k := 0; k < c.Iters && atomic.LoadInt32(&stop) == 0; k++ {
+				if got := o.Fn(fn); math.Float64bits(got) != want {
+					errs[g] = fmt.Errorf("v%s scoring method %d on a private copy of %s returns %v at call %d while %d goroutines score copies of two objects; alone it returns %v", p.V.Name, fn, src.Vector(), got, k, n, math.Float64frombits(want))
+					atomic.StoreInt32(&stop, 1)
+					return
+				}
+			}
+		}(g)
+	}
+	wg.Wait()
+	for _, e := range errs {
+		if e != nil {
+			return e
+		}
+	}
+	return nil
+}
